@@ -177,15 +177,26 @@ func (n *Node) open() {
 // Restart closes the Core orderly and opens a new one on the same directory. Peers are gone
 // (connections do not survive a restart); agents have to be registered again by the caller.
 func (n *Node) Restart() {
-	n.Core.VerifCloseAgents()
+	n.closeAgents()
 	n.Core.Close()
 	n.Peers = map[string]*MockCLA{}
 	n.Agents = nil
 	n.open()
 }
 
+// closeAgents closes the Core's AgentManager (Core.Close leaves it running); it must not block the
+// harness when the mux no longer reads (agents already shut down by the caller).
+func (n *Node) closeAgents() {
+	done := make(chan struct{})
+	go func() { n.Core.VerifCloseAgents(); close(done) }()
+	select {
+	case <-done:
+	case <-time.After(300 * time.Millisecond):
+	}
+}
+
 func (n *Node) Destroy() {
-	n.Core.VerifCloseAgents()
+	n.closeAgents()
 	n.Core.Close()
 	if n.ownDir {
 		os.RemoveAll(n.Dir)
